@@ -632,6 +632,9 @@ func checkResponse(c caseSpec, rm *requestModel, res *pluginResult) ([]finding, 
 					}
 				}
 			}
+			if c.Kind == "mtypes" {
+				m = normTypeNames(m)
+			}
 			m = normMsg(strings.ReplaceAll(m, goBase(c.Pkg), "example.com/gen/<pkg>"))
 			if seenMsg[m] || len(seenMsg) >= 5 {
 				continue
